@@ -19,6 +19,9 @@ func init() { registerScenarioProp("C01", ruleC01, checkC01) }
 func TestC01(t *testing.T) {
 	rapid.Check(t, func(t *rapid.T) {
 		sc := genScenario(t, genOpts{allowBig: true, segmentation: rapid.IntRange(0, 3).Draw(t, "use_segmentation") == 0})
+		if rapid.IntRange(0, 5).Draw(t, "limit_at_boundary") == 0 {
+			limitAtFieldBoundary(t, sc)
+		}
 		judge(t, "C01", sc, checkC01(sc))
 	})
 }
@@ -278,6 +281,13 @@ func checkC01(sc *Scenario) *CheckResult {
 				"client sent %d messages, backend observed %d (client outcome OK); backend problems: %v", len(sent), len(view.Msgs), view.Problems)
 		}
 	}
+	if !cv.OK && backendUnenveloped && len(view.Body) == 0 && view.Snap.Method != "GET" {
+		// The RPC failed before any request data was forwarded (e.g. the message is over the limit):
+		// the un-enveloped backend was handed an empty body, i.e. nothing of the client's data, and the
+		// client sees the error. (Same reading as C09: an empty body is not a complete-looking message.)
+		res.class("failed_before_forwarding_unenveloped")
+		gotReq = nil
+	}
 	if ok, why := isPrefixSeq(gotReq, sent); !ok {
 		if cv.OK || !strings.Contains(why, "undecodable") {
 			res.violate("request_altered", "c01:"+featureSig(sc, view, "request"),
@@ -386,3 +396,58 @@ func sampleMsgs(ms []proto.Message) []string {
 }
 
 var _ protoreflect.Name
+
+
+// limitAtFieldBoundary rewrites one message of the scenario into a highly compressible one made
+// of many small repeated elements, sends it compressed, and sets the service's message limit to
+// the offset of one of its field boundaries: the compressed form fits the limit, the plain form
+// does not, and a transcoder that cut the plain form at the limit would deliver a decodable
+// prefix. The only outcomes the property allows are a visible failure or exact delivery.
+func limitAtFieldBoundary(t *rapid.T, sc *Scenario) {
+	mi := lookupMethod(sc.Client.service(), sc.Client.Method)
+	if mi == nil {
+		return
+	}
+	onRequest := rapid.Bool().Draw(t, "boundary_on_request")
+	typeName := mi.Out
+	if onRequest {
+		typeName = mi.In
+	}
+	if (onRequest && (len(sc.Client.Msgs) == 0 || sc.Client.Form == FormREST || sc.Client.Form == FormConnectGet)) || (!onRequest && len(sc.Backend.Msgs) == 0) {
+		return
+	}
+	m := newMessage(typeName)
+	var list protoreflect.FieldDescriptor
+	fds := m.ProtoReflect().Descriptor().Fields()
+	for i := 0; i < fds.Len(); i++ {
+		if fd := fds.Get(i); fd.IsList() && fd.Kind() == protoreflect.StringKind {
+			list = fd
+			break
+		}
+	}
+	if list == nil {
+		return
+	}
+	n := rapid.IntRange(40, 400).Draw(t, "boundary_elems")
+	l := m.ProtoReflect().Mutable(list).List()
+	for i := 0; i < n; i++ {
+		l.Append(protoreflect.ValueOfString("ab"))
+	}
+	enc := mustMarshal(m)
+	per := len(enc) / n
+	k := rapid.IntRange(n/4+1, n-1).Draw(t, "boundary_at")
+	sc.Config.MaxMsg = uint32(k * per)
+	if onRequest {
+		sc.Client.Msgs[0] = enc
+		sc.Client.Compression, sc.Client.Identity = CompGzip, false
+		sc.Client.MsgRaw = make([]bool, len(sc.Client.Msgs))
+	} else {
+		sc.Backend.Msgs[0] = enc
+		sc.Backend.Compress = true
+		sc.Backend.MsgRaw = make([]bool, len(sc.Backend.Msgs))
+		if !contains(sc.Client.Accept, CompGzip) {
+			sc.Client.Accept = append(sc.Client.Accept, CompGzip)
+		}
+	}
+	sc.Note += "limit_at_boundary;"
+}
